@@ -6,6 +6,7 @@ import (
 	"go/token"
 	"go/types"
 	"regexp"
+	"sort"
 	"strings"
 )
 
@@ -14,7 +15,60 @@ func init() { register("C35", checkC35) }
 func irText(ir *FuncIR) string {
 	var sb strings.Builder
 	dumpBlock(&sb, ir.Body, "")
-	return localNameRx.ReplaceAllString(sb.String(), "$$")
+	return canonAssignOrder(sb.String())
+}
+
+var plainAssignRx = regexp.MustCompile(`^( *)assign ([^ ,(]+) = ([^(]*)$`)
+
+// canonAssignOrder replaces local names by `$` and puts every run of adjacent, mutually independent plain assignments
+// (`x.a = v`, no call on either side, neither target mentioned by the other statement) into one order, so that rules
+// that read the text do not depend on the order in which the source happens to list them.
+func canonAssignOrder(text string) string {
+	lines := strings.Split(text, "\n")
+	type asg struct{ lhs, rhs, canon string }
+	parse := func(l string) (string, *asg) {
+		m := plainAssignRx.FindStringSubmatch(l)
+		if m == nil {
+			return "", nil
+		}
+		return m[1], &asg{m[2], m[3], localNameRx.ReplaceAllString(l, "$$")}
+	}
+	independent := func(a, b *asg) bool {
+		return !strings.Contains(b.rhs, a.lhs) && !strings.Contains(b.lhs, a.lhs) && !strings.Contains(a.rhs, b.lhs) && !strings.Contains(a.lhs, b.lhs)
+	}
+	out := make([]string, 0, len(lines))
+	for i := 0; i < len(lines); {
+		ind, a := parse(lines[i])
+		if a == nil {
+			out = append(out, localNameRx.ReplaceAllString(lines[i], "$$"))
+			i++
+			continue
+		}
+		run := []*asg{a}
+		j := i + 1
+		for ; j < len(lines); j++ {
+			ind2, b := parse(lines[j])
+			if b == nil || ind2 != ind {
+				break
+			}
+			ok := true
+			for _, p := range run {
+				if !independent(p, b) {
+					ok = false
+				}
+			}
+			if !ok {
+				break
+			}
+			run = append(run, b)
+		}
+		sort.SliceStable(run, func(x, y int) bool { return run[x].canon < run[y].canon })
+		for _, r := range run {
+			out = append(out, r.canon)
+		}
+		i = j
+	}
+	return strings.Join(out, "\n")
 }
 
 // topLevelOrder returns the position index of the first top-level node matching pred, or -1.
@@ -266,8 +320,8 @@ func checkC35(c *Check) {
 		c.Ob("crypto/decrypted-bytes-delivered-first", "cryptoReader.Read", deliver, pos, "already decrypted bytes buf[begin:end] are handed out first and begin advances by the number copied")
 		whole := strings.Contains(txt, "call roundDownPow2 recv=(len($), item.blockSize) -> [$]\nif (item.enc != nil)\n  call dyn:item.enc.CryptBlocks recv=($[:$], $[:$]) -> []\n") && strings.Contains(txt, "assign $ = $[:($ + $)]\n")
 		c.Ob("crypto/whole-blocks-only", "cryptoReader.Read", whole, pos, "the target is cut to tail+m bytes and only roundDown(len, blockSize) bytes are decrypted, in place")
-		buffered := strings.Contains(txt, "if $\n  call copy recv=(buf[$:], $[:$]) -> [$]\n  assign $ += $\n  assign item.buf = $\n  assign item.begin = $\n  assign item.end = $\n")
-		direct := strings.Contains(txt, "else\n  assign $ += $\n  call copy recv=(item.buf[:cap(item.buf)], $[$:]) -> [$]\n  assign item.buf = item.buf[:$]\n  assign item.begin = #0\n  assign item.end = #0\n")
+		buffered := strings.Contains(txt, "if $\n  call copy recv=(buf[$:], $[:$]) -> [$]\n  assign $ += $\n  assign item.begin = $\n  assign item.buf = $\n  assign item.end = $\n")
+		direct := strings.Contains(txt, "else\n  assign $ += $\n  call copy recv=(item.buf[:cap(item.buf)], $[$:]) -> [$]\n  assign item.begin = #0\n  assign item.buf = item.buf[:$]\n  assign item.end = #0\n")
 		// identify the locals by their roles on the raw text
 		var sb strings.Builder
 		dumpBlock(&sb, ir.Body, "")
@@ -276,7 +330,8 @@ func checkC35(c *Check) {
 		roles := false
 		if m != nil {
 			tg, dec := regexp.QuoteMeta(m[1]), regexp.QuoteMeta(m[2])
-			roles = regexp.MustCompile(`call copy recv=\(buf\[(L\d+:\w+):\], `+tg+`\[:`+dec+`\]\) -> \[(L\d+:\w+)\]\n\s+assign L\d+:\w+ \+= L\d+:\w+\n\s+assign item\.buf = `+tg+`\n\s+assign item\.begin = L\d+:\w+\n\s+assign item\.end = `+dec+`\n`).MatchString(raw) &&
+			roles = regexp.MustCompile(`call copy recv=\(buf\[(L\d+:\w+):\], `+tg+`\[:`+dec+`\]\) -> \[(L\d+:\w+)\]\n\s+assign L\d+:\w+ \+= L\d+:\w+\n`).MatchString(raw) &&
+				regexp.MustCompile(`\n\s+assign item\.buf = `+tg+`\n`).MatchString(raw) && regexp.MustCompile(`\n\s+assign item\.end = `+dec+`\n`).MatchString(raw) &&
 				regexp.MustCompile(`assign L\d+:\w+ \+= `+dec+`\n\s+call copy recv=\(item\.buf\[:cap\(item\.buf\)\], `+tg+`\[`+dec+`:\]\) -> \[(L\d+:\w+)\]\n\s+assign item\.buf = item\.buf\[:L\d+:\w+\]`).MatchString(raw)
 		}
 		c.Ob("crypto/every-region-accounted", "cryptoReader.Read", buffered && direct && roles, pos, fmt.Sprintf("buffered path: decrypted prefix delivered, buf=target, begin=delivered, end=decrypt (tail kept in place)=%v; direct path: decrypt bytes delivered, target[decrypt:] saved to buf, begin=end=0=%v; operands are the target/decrypt locals=%v", buffered, direct, roles))
